@@ -28,6 +28,7 @@ DIRECTIVES = """directive @d(x: Int) on QUERY | MUTATION | SUBSCRIPTION | FIELD 
 directive @r(s: String) repeatable on FIELD | FRAGMENT_SPREAD | INLINE_FRAGMENT | QUERY
 directive @once on FIELD | INLINE_FRAGMENT
 directive @onlyq on QUERY
+directive @defer(label: String, if: Boolean! = true) on FRAGMENT_SPREAD | INLINE_FRAGMENT
 """
 
 
@@ -138,6 +139,7 @@ class DocGen:
         self.frag_order = []
         self.vars = {}         # per operation: name -> type
         self.labels = 0
+        self.cur_frag = None   # index in frag_order of the fragment whose body is being generated
 
     def bad(self, scale=1.0):
         return self.rng.random() < self.chaos * scale
@@ -170,21 +172,34 @@ class DocGen:
         if r.random() >= self.pdir and not self.bad(0.3):
             return ""
         n = 1 if r.random() < 0.7 else 2
+        used = set()
+
+        def fresh(name):
+            if name in used and not self.bad():
+                return False
+            used.add(name)
+            return True
         for _ in range(n):
             k = r.randrange(8)
             if loc in ("FIELD", "FRAGMENT_SPREAD", "INLINE_FRAGMENT") and k < 3 and not root_sub:
-                cond = r.choice(["true", "false"]) if r.random() < 0.6 or self.vars is None else self.var("Boolean!")
-                out.append("@%s(if: %s)" % (r.choice(["skip", "include"]), cond))
+                nm = r.choice(["skip", "include"])
+                if fresh(nm):
+                    cond = r.choice(["true", "false"]) if r.random() < 0.6 or self.vars is None else self.var("Boolean!")
+                    out.append("@%s(if: %s)" % (nm, cond))
             elif k == 3:
-                out.append("@d(x: %s)" % self.value("Int") if r.random() < 0.6 else "@d")
+                if fresh("d"):
+                    out.append("@d(x: %s)" % self.value("Int") if r.random() < 0.6 else "@d")
             elif k == 4 and loc in ("FIELD", "FRAGMENT_SPREAD", "INLINE_FRAGMENT", "QUERY"):
                 out.append('@r(s: "p") @r' if r.random() < 0.5 else "@r")
             elif k == 5 and loc in ("FIELD", "INLINE_FRAGMENT"):
-                out.append("@once")
+                if fresh("once"):
+                    out.append("@once")
             elif k == 6 and loc == "QUERY":
-                out.append("@onlyq")
+                if fresh("onlyq"):
+                    out.append("@onlyq")
             elif k == 7 and loc == "FIELD":
-                out.append("@deprecated" if self.bad() else "@d(x: 3)")
+                if fresh("d"):
+                    out.append("@deprecated" if self.bad() else "@d(x: 3)")
         if self.bad(0.5):
             out.append(r.choice(["@undefinedDir", "@once @once", "@d(x: 1, x: 2)", "@onlyq", "@skip", "@skip(if: true, if: false)",
                                  "@d(zz: 1)", "@include(if: 3)", "@specifiedBy(url: \"u\")", "@r(s: $undefinedVar)"]))
@@ -194,6 +209,8 @@ class DocGen:
         """maybe a @defer directive for a fragment spread / inline fragment"""
         r = self.rng
         if r.random() >= 0.08 and not self.bad(0.3):
+            return ""
+        if self.cur_frag is not None and not self.bad(3.0):
             return ""
         self.labels += 1
         label = 'label: "L%d"' % (self.labels if not self.bad() else 1)
@@ -303,7 +320,8 @@ class DocGen:
             return self.field(ty, r.choice(self.sch.fields.get(ty, ["a"])), depth, optype, True)
         if self.bad():
             return "...undefinedFrag"
-        existing = [n for n, c in self.frags.items() if c == ty]
+        existing = [n for n, c in self.frags.items() if c == ty
+                    and (self.cur_frag is None or self.frag_order.index(n) > self.cur_frag or self.bad(3.0))]
         if existing and r.random() < 0.5:
             name = r.choice(existing)
         elif self.frags and self.bad(2.0):
@@ -365,6 +383,7 @@ class DocGen:
                 done.add(n)
                 c = self.frags[n]
                 self.vars = None
+                self.cur_frag = self.frag_order.index(n)
                 body = self.selset(c, 1 if len(done) > 6 else 2, "query")
                 if self.bad():
                     body += " ..." + r.choice(sorted(self.frags))       # cycles
